@@ -479,6 +479,9 @@ class Gen:
             if kvs:
                 i = ri(r, 0, len(kvs) - 1)
                 kvs[i][1] = self.junk_flat() if r.random() < 0.6 else self.corrupt(kvs[i][1])
+                if kvs[i][1] is None:
+                    # (a synthesised plain class replaces a None argument by its mutable default: the instance would not hold None)
+                    kvs[i][1] = ["x", "opaque"]
             return ["o", wire[1], kvs]
         if tag == "t":
             xs = list(wire[1])
